@@ -20,6 +20,7 @@ TIMEOUT = {"quick": 900, "thorough": 3400}
 RULE = (
     "one worker process per DOCTRANS_LINE_LENGTH value (module-level width is read once at import) x generated IRs whose "
     "summaries/prose/type strings are shorter than, about equal to and much longer than the width x seven kinds x "
+    "emitter options; prose may already state its default, long prose carries free-standing hyphens, hyphenated words and a URL longer than the narrow widths; " 
     "emitter options; one evaluation = emit wrapped + emit unwrapped + parse both + field-wise comparison; "
     "non-trivial = wrapped emission succeeded and both parsed; distinct = distinct (width, kind, case index)"
 )
